@@ -39,3 +39,9 @@ Definition check_flags (c : prop * bool * bool * (Z * Z)) : bool :=
   Bool.eqb (is_tautology inp) t && Bool.eqb (is_contradiction inp) f && bnd_eqb (equation_bounds inp) eb.
 Definition check_reduce (c : prop * prop) : bool :=
   let '(inp, obs) := c in prop_eqb (reduce inp) obs.
+
+(* --- to_ge_polyhedron --- *)
+Definition check_encode (c : bool * prop * list (ident * (Z * Z)) * list (list Z)) : bool :=
+  let '(active, m, cols, rws) := c in
+  let '(mc, mr) := to_ge_polyhedron active m in
+  list_eqb (pair_eqb String.eqb bnd_eqb) mc cols && list_eqb (list_eqb Z.eqb) mr rws.
